@@ -23,6 +23,10 @@ func main() {
 	switch os.Args[1] {
 	case "run":
 		cmdRun(os.Args[2:])
+	case "check":
+		cmdCheck(os.Args[2:])
+	case "replay":
+		cmdReplay(os.Args[2:])
 	default:
 		usage()
 	}
@@ -65,6 +69,7 @@ func cmdRun(args []string) {
 	maporder := fs.Bool("maporder", false, "explore all map orders")
 	only := fs.String("only", "", "decision prefix")
 	maxPaths := fs.Int("maxpaths", 0, "path cap")
+	tabulate := fs.String("tabulate", "", "f1;f2")
 	fs.Parse(args)
 	ov, err := loadOverlay(*repo, *hdir)
 	if err != nil {
@@ -89,6 +94,11 @@ func cmdRun(args []string) {
 		fmt.Sscan(parts[1], &v)
 		cfg.Bounds[k] = v
 	}
+	for _, t := range strings.Split(*tabulate, ";") {
+		if t != "" {
+			cfg.Tabulate = append(cfg.Tabulate, t)
+		}
+	}
 	for _, kv := range strings.Split(*stubs, ";") {
 		if kv == "" {
 			continue
@@ -106,8 +116,8 @@ func cmdRun(args []string) {
 
 func printReport(rep *sym.Report) {
 	fmt.Printf("harness %s/%s bounds=%v\n", rep.Pkg, rep.Harness, rep.Bounds)
-	fmt.Printf("paths=%d steps=%d queries=%d (sat %d unsat %d unknown %d err %d) solver=%.2fs wall=%.2fs\n",
-		rep.Paths, rep.Steps, rep.Queries, rep.SolverSat, rep.SolverUnsat, rep.SolverUnknown, rep.SolverErrors,
+	fmt.Printf("paths=%d steps=%d domdecided=%d queries=%d (sat %d unsat %d unknown %d err %d) solver=%.2fs wall=%.2fs\n",
+		rep.Paths, rep.Steps, rep.DomDecided, rep.Queries, rep.SolverSat, rep.SolverUnsat, rep.SolverUnknown, rep.SolverErrors,
 		rep.SolverTime.Seconds(), rep.Wall.Seconds())
 	for _, id := range sym.SortedKeys(rep.Asserts) {
 		a := rep.Asserts[id]
@@ -145,4 +155,24 @@ func printReport(rep *sym.Report) {
 		sb, _ := json.Marshal(rep.Samples[:min(3, len(rep.Samples))])
 		fmt.Printf("  samples %s\n", sb)
 	}
+}
+
+func cmdReplay(args []string) {
+	if len(args) != 1 {
+		usage()
+	}
+	var doc replayDoc
+	if err := loadJSON(args[0], &doc); err != nil {
+		fatal2("cannot read replay file: %v", err)
+	}
+	rp := newReplayer("/repo")
+	defer rp.cleanup()
+	v := sym.Violation{Kind: doc.Kind, ID: doc.ID, Harness: doc.Harness, Pkg: doc.Pkg, Model: doc.Vars, Bounds: doc.Bounds}
+	out, ok := rp.replay(v, args[0])
+	fmt.Println(out)
+	if ok {
+		fmt.Printf("replay reproduces the violation (%s %s)\n", doc.Kind, doc.ID)
+		os.Exit(1)
+	}
+	fmt.Println("replay does not reproduce the violation")
 }
